@@ -86,6 +86,51 @@ def lifted_method(o, name, args, kw):
     raise Unsupported(f"{type(o).__name__}.{name} with symbolic arguments")
 
 
+class SmallSet:
+    """a set display with symbolic elements, e.g. {b[0], b[-1]}: supports `&` with a concrete set (truthiness of the
+    intersection), `in` and truthiness"""
+
+    def __init__(self, elts):
+        self.elts = elts
+
+    def _inter(self, other):
+        from .values import Or
+
+        alts = []
+        for e in self.elts:
+            for o in other:
+                r = e == o
+                if r is not False:
+                    alts.append(r)
+        return _SetTruth(Or(*alts) if alts else False)
+
+    def __and__(self, other):
+        return self._inter(other)
+
+    __rand__ = __and__
+
+    def sym_contains(self, x):
+        from .values import Or
+
+        alts = [e == x for e in self.elts]
+        alts = [a for a in alts if a is not False]
+        return Or(*alts) if alts else False
+
+    def __bool__(self):
+        return True
+
+
+class _SetTruth:
+    def __init__(self, cond):
+        self.cond = cond
+
+    def __bool__(self):
+        from .values import tbool
+
+        t = tbool(self.cond)
+        return t if isinstance(t, bool) else ctx().branch(t, "set.intersection.nonempty")
+
+
 class SRange:
     """range(stop) with a symbolic stop; iterated only through a cut for-loop"""
 
